@@ -1,5 +1,6 @@
 import G3D.Proofs.BodySoundBase
 import G3D.Model.Judge
+import G3D.Model.ExactHyp
 
 /-! # Decidable forms of the hypotheses of the soundness theorems
 
@@ -51,8 +52,6 @@ theorem Polygon.validB_iff_bs (P : Polygon) : P.validB = true ↔ P.Valid := by
   · rintro ⟨p0, p1, p2, rest, hp, hpl, htp⟩
     refine ⟨⟨?_, hpl⟩, htp⟩
     rw [hp]; simp
-
-def Seg.wfB (s : Seg) : Bool := (s.a != s.b) && (s.line == (⟨s.a, sub s.b s.a⟩ : Line))
 
 theorem Seg.wfB_iff (s : Seg) : s.wfB = true ↔ s.WF := by
   unfold Seg.wfB Seg.WF
